@@ -144,7 +144,7 @@ func (st *State) intQuery(wantModel bool, extra ...*smt.Term) (smt.Result, map[s
 		to = 30000
 	}
 	t0 := time.Now()
-	r, m, _ := smt.Race([]string{"cvc5", "z3"}, script, time.Duration(to)*time.Millisecond)
+	r, m, _ := smt.Race([]string{"cvc5", smt.DefaultZ3()}, script, time.Duration(to)*time.Millisecond)
 	st.w.Stats.IntTimeNs += int64(time.Since(t0))
 	if r != smt.Unknown {
 		st.w.Stats.IntDecided++
